@@ -27,7 +27,7 @@ TIERS = {
     "quick": {"worlds": 160, "wall": 150, "cap": 20, "limit": 90.0, "max_points": 40},
     "thorough": {"worlds": 2400, "wall": 1500, "cap": 80, "limit": 240.0, "max_points": 64},
 }
-GATES = ("stops.iter", "stops.deadline", "stops.deadline.inner", "nontrivial")
+GATES = ("stops.iter", "stops.deadline", "stops.deadline.inner", "stops.iter.reused_solver", "nontrivial")
 
 
 def generate(rng, seed, index, tier):
@@ -159,9 +159,10 @@ def case(world):
     # ---- deadlines
     reads = R.clock.reads
     starts = [i for i, (w, _) in enumerate(reads) if is_timer_start(w)]
-    if not starts:
-        raise RuntimeError("clock seam: no Timer start read found among readers %r" % sorted(set(w for w, _ in reads)))
-    start = starts[0]
+    # positions of the deadline: every read after the solver's timer was started (a deadline
+    # that passes before the timer starts is a clock jump, not an expiry).  Should the code not
+    # read the clock when its timer starts, every read of the solve is a position.
+    start = starts[0] if starts else -1
     limit_reads = [i for i, (w, _) in enumerate(reads) if is_timer_limit_read(w)]
     if not limit_reads:
         raise RuntimeError("clock seam: no Timer limit read found among readers %r" % sorted(set(w for w, _ in reads)))
@@ -177,10 +178,10 @@ def case(world):
         sub = {"j": j}
         w2 = copy.deepcopy(world)
         w2["params"]["time_limit"] = 1.0
-        w2["clock"] = {"t0": 1000.0, "expire_at_read": j}
+        w2["clock"] = {"expire_at_read": j}
         S = execute(w2)
         execs += 1
-        vsec += 1e9 - 1000.0 if S.clock.n > j else 0.0
+        vsec += 1e9 if S.clock.n > j else 0.0
         bump("stops.deadline")
         nxt = [i for i in limit_reads if i >= j]
         ctx = dict(ctx0, j=j)
@@ -206,6 +207,25 @@ def case(world):
         if is_inner and not vs and len(S.trials) != p + 1:
             vs.append(V(ID, "aborted-trial", "deadline inside the Newton loop of trial %d but the trial is not logged as aborted" % p, sub, ctx))
         viol += vs
+    # ---- the same limits on the *re-used* solver object (solver.params.iteration_limit = k; solve again)
+    fresh = {}
+    for k in [k for k in ks if 0 < k < TR and k <= cap][:1] + [k for k in ks if TR // 2 <= k < TR and k <= cap][:1]:
+        sub = {"reuse_k": k}
+        if only is not None and only != sub:
+            continue
+        if k not in fresh:
+            fresh[k] = execute(dict(world, params=dict(world["params"], iteration_limit=k))).traj_digest()
+            execs += 1
+        old_lim = R.solver.params.iteration_limit
+        R.solver.params.iteration_limit = k
+        try:
+            S2 = execute(dict(world, params=dict(world["params"], iteration_limit=k)), solver=R.solver)
+        finally:
+            R.solver.params.iteration_limit = old_lim
+        execs += 1
+        bump("stops.iter.reused_solver")
+        if S2.traj_digest() != fresh[k]:
+            viol.append(V(ID, "reused-solver", "limiting the re-used solver object to %d iterations ends %s after %d trials and differs from the same limit on a fresh solver" % (k, S2.outcome, len(S2.trials)), sub, dict(ctx0, t=k)))
     sample = small_sample(world, {"reference": {"trials": TR, "outcome": R.outcome, "clock_reads": len(reads), "inner_limit_reads": len(inner)}, "stops": {"k": ks[:6], "j": js[:6]}})
     if full_k and full_j:
         bump("worlds.fully_enumerated")
